@@ -10,7 +10,7 @@ from sa.exc import CANCELLED
 from sa.flow import FnExit, Interp, TestAtom, WithEnter, WithExit, call_of
 
 CLAIM = {
-    "text": "Decides the structure that makes per-client datagram handling FIFO and single-handler for every arrival order: the per-client state is written only by three guarded transition functions realising exactly None->PENDING->RUNNING->None; every start of a client task is preceded, with no suspension point in between, by mark_pending() of the same client and the check-then-act sections (state test to mark_pending, the whole task-done hook, queue append before the first await) contain no suspension point, so no arrival can interleave; the client task marks itself running before its first await and runs the task-done hook on every exit; the hook restarts a task whenever the queue is non-empty; queues are touched only by append (right) and popleft; each datagram callback hands the datagram on exactly once; condition variables are per client; the queue length push_datagram() returns to the spawn decision is read after its last suspension point. A datagram taken out of a client's queue is never held across a cancellable suspension point or dropped by an exit (hold typestate of C10); the listener starts exactly one task per datagram, unconditionally, carrying that datagram. Round 4: the queue length push_datagram() returns is read after its last suspension point; the datagram listeners hand the per-datagram handler down unchanged or through a wrapper that reaches it without a suspension point (no shared semaphore / lock in front of the handler). Round 5: the trio twin of the listener yields after every datagram and only through a cancel-shielded checkpoint while a datagram is held; the datagram queues have no capacity bound.",
+    "text": "Decides the structure that makes per-client datagram handling FIFO and single-handler for every arrival order: the per-client state is written only by three guarded transition functions realising exactly None->PENDING->RUNNING->None; every start of a client task is preceded, with no suspension point in between, by mark_pending() of the same client and the check-then-act sections (state test to mark_pending, the whole task-done hook, queue append before the first await) contain no suspension point, so no arrival can interleave; the client task marks itself running before its first await and runs the task-done hook on every exit; the hook restarts a task whenever the queue is non-empty; queues are touched only by append (right) and popleft; each datagram callback hands the datagram on exactly once; condition variables are per client; the queue length push_datagram() returns to the spawn decision is read after its last suspension point. A datagram taken out of a client's queue is never held across a cancellable suspension point or dropped by an exit (hold typestate of C10); the listener starts exactly one task per datagram, unconditionally, carrying that datagram. Round 4: the queue length push_datagram() returns is read after its last suspension point; the datagram listeners hand the per-datagram handler down unchanged or through a wrapper that reaches it without a suspension point (no shared semaphore / lock in front of the handler). Round 5: the trio twin of the listener yields after every datagram and only through a cancel-shielded checkpoint while a datagram is held; the datagram queues have no capacity bound. Round 6: error_received() of the datagram listener protocol only logs: it stores nothing on the object and completes no future.",
     "note": "Trusted: task-group start_soon runs tasks in FIFO order; asyncio/trio deliver datagram callbacks in arrival order. Not decided: liveness in time ('eventually handled').",
     "technique": "typestate on the client state machine, atomic-section analysis with interprocedural may-suspend summaries, exit-obligation and API-discipline queries over the ast program database",
 }
